@@ -72,6 +72,22 @@ func Start(dbs *schemas.DB) *Env {
 	return e
 }
 
+// StartWithServerDB is Start with a server that also serves the _Server database.
+func StartWithServerDB(dbs *schemas.DB) *Env {
+	e := &Env{Sys: sys.NewWithServerDB(dbs), Sock: newSock(), done: make(chan struct{})}
+	go func() {
+		defer close(e.done)
+		_ = e.Sys.Srv.Serve("unix", e.Sock)
+	}()
+	for i := 0; !e.Sys.Srv.Ready(); i++ {
+		if i > 20000 {
+			panic("server did not become ready")
+		}
+		time.Sleep(50 * time.Microsecond)
+	}
+	return e
+}
+
 // WithProxy puts a proxy in front of the server; clients should dial e.Proxy.Sock.
 func (e *Env) WithProxy() *Proxy {
 	e.Proxy = NewProxy(e.Sock)
